@@ -383,19 +383,29 @@ pub fn pk_to_coordinates(pk: &[u8]) -> Result<(Bytes, Bytes), String> {
 
 /// the same for a caller-chosen interface identifier
 pub fn merged_blind_generators_for(s: Suite, n: usize, m: usize, api: Option<&[u8]>) -> Result<Vec<[u8; 48]>, String> {
+    #[cfg(not(feature = "library-helpers"))]
+    { let _ = (s, n, m, api); return Err("engine built without the library-helpers feature".into()); }
+    #[cfg(feature = "library-helpers")]
+    {
     use group::Curve;
     with_suite!(s, CS, {
         let (_, g) = zkryptium::bbsplus::blind::prepare_parameters::<CS>(None, None, n, m, None, api).map_err(e2s)?;
         Ok(g.values.iter().map(|p| p.to_affine().to_compressed()).collect())
     })
+    }
 }
 
 /// the generator list the blind interface verifies against: create(n, api) ++ create(m, "BLIND_" || api)
 pub fn merged_blind_generators(s: Suite, n: usize, m: usize, api_present: bool) -> Result<Vec<[u8; 48]>, String> {
+    #[cfg(not(feature = "library-helpers"))]
+    { let _ = (s, n, m, api_present); return Err("engine built without the library-helpers feature".into()); }
+    #[cfg(feature = "library-helpers")]
+    {
     use group::Curve;
     with_suite!(s, CS, {
         let api: Option<&[u8]> = if api_present { Some(<CS as BbsCiphersuite>::API_ID_BLIND) } else { None };
         let (_, g) = zkryptium::bbsplus::blind::prepare_parameters::<CS>(None, None, n, m, None, api).map_err(e2s)?;
         Ok(g.values.iter().map(|p| p.to_affine().to_compressed()).collect())
     })
+    }
 }
